@@ -13,6 +13,14 @@
 // io.cncf.notary.verificationPlugin is the name.  A second family enumerates
 // all subsets of directory-entry kinds below the plugin root for List.
 //
+// Names: the fixed list of DESIGN.md plus every '/'-joined sequence of 1..k tokens
+// from {.., ., "", x, foo, a\b, f<NUL>, " ", ...} (k = 2 quick, 3 thorough).
+// Every case lives in its own scratch directory deep enough (7 levels + root
+// depth) that six "../" stay inside it; the process also changes its working
+// directory into the scratch space and checks that nothing appeared there.
+// "install-dir-nonexec" is a replay-only probe (probe-install-dir-nonexec.json),
+// not part of the enumerated space.
+//
 // Oracle (hand-labelled alphabet, the label is cross-checked against the
 // statement's definition "single path component"):
 //
@@ -869,6 +877,7 @@ func (w *world) runCase(ns nameSpec, depth int, pre, op string) string {
 		src = c.installSource(true)
 		// a private copy (a hard link shares its mode with every other sentinel) without the executable bit
 		must(os.Remove(c.srcExe))
+		_ = os.Remove(c.srcExe + ".json") // it would be a second candidate (plugin "<name>.json")
 		must(os.WriteFile(c.srcExe, w.plugbin, 0o644))
 	}
 
